@@ -3,7 +3,8 @@
 (* Input (JSON, env CASES): [flagsets |-> <<<<flag, ...>>, ...>>, cases |-> <<case, ...>>]  *)
 (*   case = [id, sub ("dm" | "legacy"), started (BOOLEAN: was HA started before step 1),    *)
 (*           ctxs |-> <<contexts that exist>>,                                              *)
-(*           steps |-> << [act |-> abstract action with arguments, obs |-> observation] >> ] *)
+(*           steps |-> << [act |-> abstract action with arguments, obs |-> observation,      *)
+(*                         rush |-> BOOLEAN: no observation, next action issued at once] >> ] *)
 (* Every step is taken with the action of Lifecycle.tla (Eager = TRUE: the code is sampled  *)
 (* at quiescence) and the recorded observation must equal the projection Proj of the        *)
 (* model's next state:  obs = Proj'.  One behaviour per (case, flag set); it ends with      *)
@@ -27,7 +28,6 @@ tvars == <<vars, cid, fs, k, ok, cut>>
 
 DeclOf(j) == [st |-> ToSet(j.st), ev |-> ToSet(j.ev), tt |-> ToSet(j.tt), svc |-> ToSet(j.svc), resp |-> j.resp, sf |-> j.sf]
 DefsOf(q) == [i \in 1..Len(q) |-> [n |-> q[i].n, d |-> DeclOf(q[i].d)]]
-OutCaseOf(give) == CHOOSE oc \in OutCases : oc.give = give
 
 TInit == /\ cid \in 1..Len(Cases) /\ fs \in 1..Len(FlagSeqs) /\ k = 0 /\ ok = TRUE /\ cut = 0
          /\ flags = ToSet(FlagSeqs[fs]) /\ sub = Cases[cid].sub /\ started = Cases[cid].started
@@ -35,7 +35,7 @@ TInit == /\ cid \in 1..Len(Cases) /\ fs \in 1..Len(FlagSeqs) /\ k = 0 /\ ok = TR
          /\ G = <<>> /\ bind = [c \in Ctx |-> [n \in Name |-> 0]] /\ cont = [c \in Ctx |-> EmptyCont]
          /\ cnt = [s \in Svc |-> 0] /\ own = [s \in Svc |-> NoOwner] /\ hd = [s \in Svc |-> 0]
          /\ subs = [x \in Ent |-> {}] /\ lst = [e \in Ev |-> {}] /\ tm = {}
-         /\ runs = {} /\ res = NoRes /\ steps = 0 /\ lastAct = [a |-> "init"]
+         /\ runs = {} /\ res = NoRes /\ quiet = TRUE /\ hot = {} /\ steps = 0 /\ lastAct = [a |-> "init"]
 
 Do(a) == CASE a.a = "define" -> Define(a.c, a.n, DeclOf(a.d))
            [] a.a = "del"    -> Del(a.c, a.n)
@@ -50,7 +50,7 @@ Do(a) == CASE a.a = "define" -> Define(a.c, a.n, DeclOf(a.d))
            [] a.a = "fire"   -> Fire(a.e)
            [] a.a = "set"    -> SetState(a.x)
            [] a.a = "call"   -> Call(a.s, a.data, a.rr)
-           [] a.a = "out"    -> Out(a.c, a.form, OutCaseOf(a.give))
+           [] a.a = "out"    -> Out(a.c, a.form, a.give)
 
 \* the recording as a value comparable with Proj: runs as a set (the count is compared separately)
 ObsVal(o) == [o EXCEPT !.runs = ToSet(o.runs)]
@@ -68,8 +68,11 @@ InRegion(a) == CASE a.a \in {"define", "push"} -> ConflictOK(a.c, DeclOf(a.d))
 TNext == /\ ok /\ cut = 0 /\ k < Len(Cases[cid].steps)
          /\ IF InRegion(Cases[cid].steps[k + 1].act)
             THEN /\ Do(Cases[cid].steps[k + 1].act)
+                 /\ quiet' = ~Cases[cid].steps[k + 1].rush
                  /\ k' = k + 1
-                 /\ ok' = Matches(Cases[cid].steps[k + 1].obs)
+                 \* a "rush" step carries no observation (the next action was issued before quiescence); it must
+                 \* not run anything by itself: what was run is compared at the next observed step
+                 /\ ok' = IF Cases[cid].steps[k + 1].rush THEN runs' = {} ELSE Matches(Cases[cid].steps[k + 1].obs)
                  /\ cut' = 0
             ELSE /\ cut' = k + 1 /\ UNCHANGED <<vars, k, ok>>
          /\ UNCHANGED <<cid, fs>>
